@@ -109,7 +109,9 @@ class GetMultidocMode:
 class GetDocMergers:
     """ASSUMED (I/O): loads the right-hand stream into one Merger per document."""
     assumed = True
-    notes = "file/stdin loading is outside the subset; returns (mergers, loaded_ok)"
+    notes = ("file/stdin loading is outside the subset; returns (mergers, loaded_ok).  NOT assumed: that a stream which loads holds a "
+             "document -- a file without any document (empty, comments only) loads as ([], True), only an empty STDIN yields one "
+             "(empty) document")
     raises = []
     opts = {"returns": "Tuple[List[Merger], bool]"}
 
